@@ -3,6 +3,10 @@ import re
 
 T = "RsslVerif.Thm.C02."
 TS = "RsslVerif.Thm.C02Sem."
+TV = "RsslVerif.Thm.C02Vec."
+VEC_THEOREMS = ["msl_exporter_vec_shape_as_modelled", "msl_swizzle_letters_are_identity", "msl_vector_type_names_roundtrip",
+                "vec1_is_named_as_scalar", "vec_shape_sound", "gen_sem_msl_vec_expr", "literal_vector_cast_panics_msl",
+                "mulMV_toMetal", "ctor_from_scalars_transposes", "metal_subscript_is_a_column"]
 SEM_THEOREMS = ["msl_exporter_shape_as_modelled", "msl_op_table_is_identity", "msl_literal_arms_same_as_hlsl", "msl_genLiteral_eq",
                 "gen_sem_expr", "gen_sem_expr_plain", "gen_sem_args", "gen_sem_stmt", "gen_sem_stmts", "gen_sem_func",
                 "trampoline_copy_semantics", "gen_sem_program", "ir_frame", "gen_sem_signatures",
@@ -156,8 +160,8 @@ def custom(ctx):
 
 SPEC = {
     "id": "C02",
-    "gens": ["UsageTables", "MslGenTables"],
-    "lean_modules": ["RsslVerif.Thm.C02", "RsslVerif.Thm.C02Sem"],
+    "gens": ["UsageTables", "MslGenTables", "MslVecTables"],
+    "lean_modules": ["RsslVerif.Thm.C02", "RsslVerif.Thm.C02Sem", "RsslVerif.Thm.C02Vec"],
     "theorems": [T + n for n in [
         "tables_as_modelled", "all_positions_descended", "implicit_names_agree",
         "recurse_no_panic", "recurse_terminates", "measure_bounded_and_increasing", "close_is_reachability",
@@ -165,7 +169,7 @@ SPEC = {
         "requiredP_order_independent", "required_monotone", "args_align", "args_unchanged_without_implicit", "args_aligned_with_defaults",
         "threaded_exactly_partial", "calculateLocal_wf", "closeProgram_ok", "threaded_exactly_program_partial",
         "mentions_calculateLocal", "threaded_exactly",
-        "default_arguments_analysed", "global_initialisers_analysed"]] + [TS + n for n in SEM_THEOREMS],
+        "default_arguments_analysed", "global_initialisers_analysed"]] + [TS + n for n in SEM_THEOREMS] + [TV + n for n in VEC_THEOREMS],
     "harness": "c02",
     "nontrivial": nontrivial,
     "finding_key": finding_key,
